@@ -253,6 +253,18 @@ pub fn gen(r: &mut Rng, n: usize) -> Vec<String> {
             }
         }
     }
+    // "decoding those bytes yields the same message": the emitted bytes of a large Piece and a few small messages arriving
+    // over TCP in parts while the receive is polled the way the connection task polls it (dropped at every timer tick)
+    for _ in 0..3 {
+        let mut bytes: Vec<u8> = vec![];
+        let n = 16384 - r.below(300) as usize;
+        bytes.extend(impl_data(&M::Pc(r.u32b(), r.u32b(), r.bytes(n).iter().map(|b| b | 1).collect())));
+        bytes.extend(impl_data(&M::Hv(r.u32b())));
+        bytes.extend(impl_data(&M::Rq(r.u32b(), r.u32b(), r.u32b())));
+        let c1 = 1 + r.below(6000) as usize;
+        let c2 = 1 + r.below(6000) as usize;
+        out.push(format!("tcps {},{} {}", c1, c2, hex(&bytes)));
+    }
     // "the bytes the client emits": the socket branch of send_msg while the remote is slow to read (tiny socket buffers)
     for (cnt, len, delay) in [(24usize, 16384usize, 300u64), (40, 8000, 150), (3, 100, 0)] {
         out.push(format!("snd {} {} {}", cnt, len + r.below(9) as usize, delay));
